@@ -11,6 +11,7 @@ mod ledger;
 mod syntax_term;
 mod fmtworker;
 mod c19;
+mod c05fmt;
 
 pub struct Opts {
     pub seed: u64,
@@ -73,6 +74,7 @@ fn main() {
         "c02" => c02::run(&o, "C02"),
         "c03" => c02::run(&o, "C03"),
         "c19" => c19::run(&o),
+        "c05fmt" => c05fmt::run(&o),
         "fmt-worker" => fmtworker::serve(),
         _ => {
             eprintln!("unknown property {}", prop);
